@@ -134,6 +134,12 @@ def node_ival_symbols(node, d):
         hi.t == z3.If(to_bterm(has), dhi.t, to_term(node.sym("hi"))))))
     # lemma ival/wf (proved by the spec-level harness IvalWfLemma): lower end <= upper end
     c.axiom(lo.t <= hi.t)
+    # by definition of ival on a compound node (one unfolding): it is the node's `own` interval if that is a constant,
+    # and a 0/1 interval otherwise
+    own_lo = z3.If(to_bterm(has), dlo.t, to_term(node.sym("lo")))
+    own_hi = z3.If(to_bterm(has), dhi.t, to_term(node.sym("hi")))
+    c.axiom(z3.Implies(z3.Not(atom), z3.If(own_lo == own_hi, z3.And(lo.t == own_lo, hi.t == own_lo),
+                                           z3.And(lo.t >= 0, hi.t <= 1))))
     return lo, hi
 
 
